@@ -47,6 +47,8 @@ class Sim:
         self.final = []
 
     def _readline(self):
+        if self.done is not None and b"\n" not in self.buf:
+            return None
         while b"\n" not in self.buf:
             chunk = os.read(self.out.fileno(), 1 << 16)
             if not chunk:
@@ -88,7 +90,7 @@ class Sim:
         data = "".join(e + "\n" for e in evs) + "GO\n"
         try:
             self.p.stdin.write(data.encode("latin-1"))
-        except BrokenPipeError:
+        except (BrokenPipeError, ValueError, OSError):
             pass
 
     def _finish_status(self):
@@ -118,6 +120,14 @@ class Sim:
         self.done = st
         if self.errf is not subprocess.DEVNULL:
             self.errf.close()
+        # release the pipes now: histories are kept for the monitors, and thousands of them per run would otherwise
+        # hold two descriptors each until garbage collection (EMFILE in the thorough tier)
+        for f in (self.p.stdin, self.p.stdout):
+            try:
+                if f is not None:
+                    f.close()
+            except Exception:
+                pass
 
     def kill(self):
         try:
